@@ -89,7 +89,9 @@ PROPS = {
               rand("concat_children", 10000, "thorough"), rand("replace_inner", 20000, "thorough")],
         tv_props=["C06", "DRIFT"],
         mc=[dict(module="MC_ConcatM.tla", cfg="MC_ConcatM"),
-            dict(module="MC_ConcatM.tla", cfg="MC_ConcatM_preF2", expect="DesignOK")],
+            dict(module="MC_ConcatM.tla", cfg="MC_ConcatM_preF2", expect="DesignOK"),
+            dict(module="MC_ReplaceM.tla", cfg="MC_ReplaceM_attr", tier="quick"),
+            dict(module="MC_ReplaceM.tla", cfg="MC_ReplaceM_attr_full", tier="thorough", timeout=1800)],
         must_fire=["C06.concat_keeps_child_attribution", "C06.concat_lines_first_mapped_piece",
                    "C06.replace_keeps_inner_attribution"],
         rule="children / inner sources are observed on their own and inside the composite; non-trivial = a SourceMapSource "
